@@ -58,6 +58,12 @@ CHECKS = {
              "variable (branch, repeat count, range ordinal, class member): the solver must confirm on all paths that the "
              "result fully matches the pattern and validates; for unsupported constructs that the generator raises.",
         design="4/C09"),
+    "C17": dict(
+        text="Bounded symbolic execution of the real generator with (a) the draw tape fixed and the iteration order of "
+             "every builtin set iterated inside d42 chosen twice by the solver (model of PYTHONHASHSEED; opcode-level "
+             "interception), outputs must be equal - counterexamples are replayed in fresh interpreters with different "
+             "PYTHONHASHSEED; (b) the same tape before and after an unrelated solver-chosen fake(): outputs must be equal.",
+        design="4/C17"),
     "C10": dict(
         text="Bounded symbolic execution of the real declaration methods, one harness per call chain: every argument "
              "is a symbolic scalar of any of five types or a solver-chosen member of a wrong-type menu. Solver must "
